@@ -210,6 +210,10 @@ func runC04(p *Prog, r *Report) {
 	if want("C04.11") {
 		ruleTrSeqAfterFlush(p, r, "C04.11")
 	}
+	if want("C04.24") {
+		// a failed write/sync/commit step is a failure of the operation that acknowledges (shared with C08.16)
+		ruleErrorsPropagate(p, r, "C04.24", []string{"leveldb", "leveldb/journal", "leveldb/table", "leveldb/storage"}, 100)
+	}
 	if want("C04.23") {
 		// replay restores the sequence counter past every replayed record (shared with C01)
 		ruleRecoveryRestoresSeq(p, r, "C04.23")
